@@ -146,7 +146,7 @@ func runCorruptCase(c *corruptCase) (kind, detail string, ok bool) {
 func c02(run *core.Run, replay string) {
 	run.SetRule("valid checksummed streams are damaged ONLY inside block payloads (positions from the independent container parser): bit flips, byte substitutions, swaps, zeroed runs, in one or several blocks, " +
 		"and stored checksums exchanged between blocks (content differs from what was hashed); small NONE/NONE streams are hit at EVERY payload bit (exhaustive); the reader (jobs 1 and 3, varying buffer sizes) " +
-		"keeps calling Read up to 64 times after the first error; oracle: the concatenation of ALL returned bytes is a prefix of the original and a clean io.EOF implies equality; " +
+		"keeps calling Read up to 64 times after the first error; blocks constructed to agree with the stored checksum on one half of its bits only (birthday search) are substituted in the payload; oracle: the concatenation of ALL returned bytes is a prefix of the original and a clean io.EOF implies equality; " +
 		"non-trivial = the mutation really changed stream bits; distinct = (recipe, mutation set, jobs)")
 	run.Assume("a 32-bit checksum legitimately lets 2^-32 of random damage through; whole payloads exchanged between blocks (each still self-consistent) are not generated: the format hashes block content only")
 	if replay != "" {
@@ -285,6 +285,28 @@ func c02(run *core.Run, replay string) {
 		run.Count("mutations_"+c.Muts[0].Kind, 1)
 		if k != "" && k != "harness" {
 			run.Violate(fmt.Sprintf("C02 %s", k), fmt.Sprintf("[%s jobs=%d] %v: %s", c.R.Name, c.Jobs, c.Muts, d), c)
+		}
+	})
+	// every bit of the stored checksum takes part in the verdict: constructed half-collisions (see c02probe.go)
+	var probes []*halfProbe
+	for _, ck := range []uint{32, 64} {
+		for _, h := range []string{"lo", "hi"} {
+			for q := 0; q < run.Pick(3, 12); q++ {
+				probes = append(probes, &halfProbe{CkSize: ck, Half: h, Seed: run.Seed*53 + int64(q), Jobs: uint(1 + q%3)})
+			}
+		}
+	}
+	core.ParallelDo(len(probes), 0, func(i int) {
+		k, d, ok := runHalfProbe(probes[i])
+		if !ok {
+			run.Count("half_collision_not_found", 1)
+			return
+		}
+		run.Eval(1)
+		run.Count("half_collision_probes", 1)
+		run.Nontrivial(fmt.Sprintf("probe|%d|%s|%d", probes[i].CkSize, probes[i].Half, probes[i].Seed))
+		if k != "" && k != "harness" {
+			run.Violate("C02 "+k, d, probes[i])
 		}
 	})
 	for i := 0; i < 6; i++ {
